@@ -73,6 +73,7 @@ type rec struct {
 	Pc      int64  `json:"pc"`     // peerClkCorr
 	Rok     bool   `json:"rok"`
 	Pok     bool   `json:"pok"`
+	Hung    bool   `json:"hung"`   // the round never reached clk.Sleep (real-time watchdog)
 	HasExp  bool   `json:"hasexp"` // expectation of the specification for this round
 	ERo     int64  `json:"ero"`
 	EPo     int64  `json:"epo"`
